@@ -83,3 +83,14 @@ Definition swap_nonoverlapping_m {A} (data : list A) (x y count : Z) : res (list
   if negb ((x + count <=? zlen data) && (y + count <=? zlen data)) then UB UBPtr else
   if negb ((x + count <=? y) || (y + count <=? x)) then UB UBOverlap else
   Val (splice (splice data x (zfirstn count (zskipn y data))) y (zfirstn count (zskipn x data))).
+
+(* ---------- lib.rs: transpose and the order changes (data mode) ---------- *)
+Definition set_m_shape {A} (m : matrix A) (s : AxisShape) : matrix A := mkMatrix (m_order m) s (m_data m).
+Definition set_m_order {A} (m : matrix A) (o : order) : matrix A := mkMatrix o (m_shape m) (m_data m).
+(* `loop { body }`: the body maps the loop state to (continue?, new state); Rust's loop has no bound, the model's has
+   `fuel` (running out of it is the outcome Panic OutOfFuel, which C05 proves unreachable for the fuel it uses) *)
+Fixpoint loop_res {S} (fuel : nat) (s : S) (body : S -> res (bool * S)) : res S :=
+  match fuel with
+  | O => Panic OutOfFuel
+  | S f => let* r := body s in if fst r then loop_res f (snd r) body else Val (snd r)
+  end.
